@@ -269,7 +269,5 @@ def _oracle(r, scen, outs, wd):
 
 def replay(ctx, obj):
     if "request" not in obj.get("replay", {}):
-        print(obj.get("what"))
-        print("VIOLATION property=C16 replay=%s no-failing-input-found" % obj.get("rerun", "").split()[-1])
-        return 1
+        return vcore.replay_obligations(ctx, "C16", obj, PROPS, ("verify", "substitute"))
     return vcore.replay(ctx, "C16", obj, oracle=_oracle)
